@@ -121,6 +121,7 @@ Definition wf_trees (bt : list (list binfo)) : bool :=
 (* placement: everything referred to is in the file, below 2^64 *)
 Definition wf_place (bt : list (list binfo)) : bool :=
   let tab := offsets L X bt in
+  (ubuf L bt <? W32) &&
   forallb (fun p => match plookup p tab with Some o => o + psize L X bt p <? W64 | None => false end)
           (needed_pids bt).
 
